@@ -10,12 +10,12 @@ func init() {
 			"(MERGE/GUARD/UNIQ, shared with C07/C04) one Trip per descriptor and one Vehicle per identifier, each entity parser yields a trip/vehicle whenever the wire carries one; (G7) no package-level state. " +
 			"Not decided: numeric ranges, protobuf decoding, DST arithmetic of the time package.",
 		Rules: []Rule{
-			{Name: "A3", Doc: "wire table against gtfs-realtime.proto", MinInstances: 50, Run: runWireTable},
-			{Name: "ZONE", Doc: "instants are expressed in the configured zone", MinInstances: 5, Run: runZoneProvenance},
-			{Name: "UNITS", Doc: "units, direction table, absent stays absent", MinInstances: 7, Run: runUnits},
-			{Name: "MERGE", Doc: "one entry per descriptor, flagged by its own entity", MinInstances: 10, Run: runMergeRules},
-			{Name: "GUARD", Doc: "entity parsers return nil only for absent wire fields", MinInstances: 3, Run: runParserGuards},
-			{Name: "G7", Doc: "no package-level state in the realtime parser", MinInstances: 50, Run: func(c *Ctx) {
+			{Name: "A3", Doc: "wire table against gtfs-realtime.proto", MinInstances: 35, Run: runWireTable},
+			{Name: "ZONE", Doc: "instants are expressed in the configured zone", MinInstances: 3, Run: runZoneProvenance},
+			{Name: "UNITS", Doc: "units, direction table, absent stays absent", MinInstances: 4, Run: runUnits},
+			{Name: "MERGE", Doc: "one entry per descriptor, flagged by its own entity", MinInstances: 7, Run: runMergeRules},
+			{Name: "GUARD", Doc: "entity parsers return nil only for absent wire fields", MinInstances: 2, Run: runParserGuards},
+			{Name: "G7", Doc: "no package-level state in the realtime parser", MinInstances: 35, Run: func(c *Ctx) {
 				fns, reach := c.scope(c.anchors("gtfs:ParseRealtime"), scopeOpts{})
 				runG7(c, "G7", parseTaintRoots(c), fns, reach, TGlobal, "a package-level cache makes the result depend on earlier parses (e.g. on the timezone of an earlier call)")
 			}},
